@@ -370,7 +370,9 @@ theorem history_inside_head (c : Cfg) (steps : List Step) (s : St) (hi : Inv c s
           generalize reopen c s false false false t none = r at t1 i1
           obtain ⟨s1, r1⟩ := r
           cases r1 with
-          | error e => exact ⟨t1, i1⟩
+          | error e =>
+            simp only at t1 i1 ⊢
+            exact ⟨t1.trans (close_inside c s1 _ i1).1, (close_inside c s1 _ i1).2.1⟩
           | ok u =>
             simp only at t1 i1 ⊢
             exact ⟨t1.trans (close_inside c s1 _ i1).1, (close_inside c s1 _ i1).2.1⟩
